@@ -75,14 +75,17 @@ def run(ctx, canary=False):
         traces.append(tr)
     if canary:
         traces = corrupt(traces)
-    res = T.validate(ctx, "est/SolverTrace.tla", E.SOLVER_TRACE_CFG, traces, name="SolverTrace", chunk=200, timeout=7200)
-    for t, (ok, reached, ln) in zip(traces, res):
+    res = T.validate2(ctx, "est/SolverTrace.tla", E.SOLVER_TRACE_CFG, E.SOLVER_TRACE_CFG_LENIENT, traces, name="SolverTrace", chunk=200, timeout=7200)
+    for t, (ok, okl, reached, reachedl, ln) in zip(traces, res):
         if t.get("canary"):
             if ok:
                 raise MachineryError("canary accepted: " + t["canary"])
         elif ok:
             ctx.traces_validated += 1
+        elif okl:
+            ctx.deviation("the stored pair is legal, but the run is not a behaviour of Solvers.tla: " + T.describe_reject(t, reached), t["info"])
         else:
+            reached = reachedl
             ctx.violation("solver event stream rejected by SolverTrace.tla: " + T.describe_reject(t, reached),
                           {"trace_info": t["info"], "events_near": t["events"][max(0, reached - 3):reached + 1]},
                           {"kind": "trace", "solver": t["solver"]})
